@@ -170,4 +170,18 @@ theorem no_ice_before_nucleation_0D (p : SnowIn ℝ) (shelf : List ℝ) (h : His
       rw [Array.getElem?_append_left (by simpa using hk)]
       simp [hk, Num.zero]
 
+/-! ### a concrete default `SnowIn` (values of snowConfig_default.yaml through `calculateDerived`) -/
+
+/-- 10 mm cube, 5 % sucrose, `k["s0"] = 50`, shelf configuration, ramp 20 → −50 °C at 0.5 K/s -/
+noncomputable def qDef : SnowIn ℝ :=
+  { const := { A := 0.0001, V := 0.000001, rho_l := 1000, mass := 0.001, mass_water := 0.001 * (1 - 0.05),
+               mass_solute := 0.001 * 0.05, cp_w := 4187, cp_i := 2108, cp_s := 1240,
+               cp_solution := 0.05 * 1240 + (1 - 0.05) * 4187, solid_fraction := 0.05, T_eq := 0, k_f := 1.853,
+               M_s := 0.3423, depression := 1.853 / 0.3423 * (0.05 / (1 - 0.05)), a := 29, b := 29.3, c := 1,
+               Dh := 333550, height := 0.01, diameter := 0.01, lambda_w := 0.598, lambda_i := 2.25,
+               lambda_s := 0.126, k_B := 1.38e-23 },
+    visf := none, Kshelf := 50,
+    oc := { t_tot := 100, start := 20, stop := -50, rate := 0.5, holds := [] },
+    cnTemp := none, xi := 0, Frand := 0.5 }
+
 end Snow.RunBounds
